@@ -320,6 +320,7 @@ def gen_history(rng: random.Random, tier: str) -> dict:
         ops.append(["threshold", rng.choice(thresholds)])
     long_paths = rng.random() < 0.12
     far_corner = (not long_paths) and rng.random() < 0.08
+    long_lists = (not long_paths) and (not far_corner) and rng.random() < 0.07
     for i in range(n_ops):
         r = rng.random()
         if not slots or r < 0.2:
@@ -328,6 +329,14 @@ def gen_history(rng: random.Random, tier: str) -> dict:
                 # (the minimal formats store coordinates as int8 and lengths separately)
                 g = rng.choice([18, 20])
                 cfg = {"name": "long", "grid_n": g, "n_mazes": rng.randint(1, 3), "maze_ctor": "gen_dfs", "maze_ctor_kwargs": {}, "endpoint_kwargs": {"allowed_start": [[0, 0]], "allowed_end": [[g - 1, g - 1]]}, "seed": rng.randrange(1000), "applied_filters": []}
+            elif long_lists:
+                # endpoint coordinate lists long enough for the archive writer to store them as external members
+                # (ZANJ externalises lists of >= 256 entries): the configuration must come back from the file intact
+                g = rng.choice([16, 17, 20])
+                k = rng.choice([255, 256, 257, 300])
+                cells = [[i // g, i % g] for i in range(min(k, g * g))]
+                ek = {rng.choice(["allowed_start", "allowed_end"]): cells}
+                cfg = {"name": "lists", "grid_n": g, "n_mazes": rng.randint(1, 2), "maze_ctor": rng.choice(["gen_dfs", "gen_wilson"]) if g <= 16 else "gen_dfs", "maze_ctor_kwargs": {}, "endpoint_kwargs": ek, "seed": rng.randrange(1000), "applied_filters": []}
             elif far_corner:
                 # large grids, kept cheap: a small constrained depth-first tree grown from the far corner, so that the
                 # solutions live at coordinates >= 127 (the minimal formats store coordinates in a narrow integer type)
